@@ -232,6 +232,7 @@ async def impl_create(loop, case, big=False):
             f.write(data)
         try:
             sd = await StreamDescriptor.create_stream(loop, env.blob_dir, fp, key, iter(ivs),
+                                                      old_sort=bool(case.get('old_sort', False)),
                                                       blob_completed_callback=env.bm.blob_completed)
         except OSError as e:
             obs['error'] = 'OSError'
@@ -341,8 +342,13 @@ def monitor_create(case, obs, raw):
         return 'descriptor key differs from the key used'
     # commitments
     sdb = raw['sd_bytes']
+    data_names = {b.blob_hash for b in sd.blobs[:-1]}
     if sdb is None:
-        return 'sd blob %s is not on disk' % sd.sd_hash
+        stray = [n for n in raw.get('dir_listing', []) if n not in data_names]
+        return ('no blob named by the descriptor\'s sd_hash %s… was published (old_sort=%s); other blobs written: %s'
+                % (sd.sd_hash[:16], bool(case.get('old_sort')), [n[:16] + '…' for n in stray]))
+    if set(raw.get('dir_listing', [])) != data_names | {sd.sd_hash}:
+        return 'blob directory holds %r, expected the data blobs and the sd blob only' % (raw.get('dir_listing'),)
     if hashlib.sha384(sdb).hexdigest() != sd.sd_hash:
         return 'sd_hash is not the SHA-384 of the sd blob'
     try:
@@ -355,6 +361,20 @@ def monitor_create(case, obs, raw):
                            **({'blob_hash': b.blob_hash} if b.blob_hash else {})) for b in sd.blobs]}
     if dec != want:
         return 'sd blob content differs from the descriptor: %r' % (dec,)
+    # the published bytes are exactly the layout's JSON (written here from the format, not through lbry)
+    if case.get('old_sort'):
+        from collections import OrderedDict
+        ob = [OrderedDict([('length', b['length']), ('blob_num', b['blob_num'])]
+                          + ([('blob_hash', b['blob_hash'])] if 'blob_hash' in b else []) + [('iv', b['iv'])])
+              for b in want['blobs']]
+        layout = json.dumps(OrderedDict([('stream_name', want['stream_name']), ('blobs', ob),
+                                         ('stream_type', 'lbryfile'), ('key', want['key']),
+                                         ('suggested_file_name', want['suggested_file_name']),
+                                         ('stream_hash', want['stream_hash'])])).encode()
+    else:
+        layout = json.dumps(want, sort_keys=True).encode()
+    if sdb != layout:
+        return 'sd blob bytes are not the %s JSON of the descriptor' % ('legacy-order' if case.get('old_sort') else 'sorted')
     if sd.stream_hash != spec_stream_hash(case['name'], key.hex(), sd.suggested_file_name, want['blobs']):
         return 'stream_hash is not the SHA-384 commitment over the descriptor content'
     bad = name_unsafe(sd.suggested_file_name)
@@ -376,7 +396,8 @@ def monitor_create(case, obs, raw):
 
 def model_create(model, case, raw):
     data, key, ivs = raw['data'], raw['key'], raw['ivs']
-    r = model.call('create', maxb=case['maxb'], name=[ord(c) for c in case['name']], key=key.hex(),
+    r = model.call('create', maxb=case['maxb'], old_sort=bool(case.get('old_sort', False)),
+                   name=[ord(c) for c in case['name']], key=key.hex(),
                    ivs=[iv.hex() for iv in ivs], file=data.hex())
     if r is None:
         return {'error': 'OSError'}
@@ -422,7 +443,10 @@ def check_create(run, model, loop, case):
     if c > 0 and size % c == 0 and size:
         run.count('create:size%(maxb-1)==0')
     bad = monitor_create(case, obs, raw)
-    sig = {'op': 'create', 'maxb': case['maxb'], 'name': case['name'], 'data': case['data'], 'key': case['key']}
+    sig = {'op': 'create', 'maxb': case['maxb'], 'name': case['name'], 'data': case['data'], 'key': case['key'],
+           'old_sort': bool(case.get('old_sort', False))}
+    if case.get('old_sort'):
+        run.count('create:old_sort')
     if bad:
         run.violation(case, bad, signature=sig)
         return
@@ -443,7 +467,7 @@ def create_cases(rng, tier):
 
     def mk(maxb, size, **kw):
         keylen = kw.pop('keylen', 16)
-        c = {'op': 'create', 'maxb': maxb, 'name': kw.pop('name', None) or rng.choice(names),
+        c = {'op': 'create', 'maxb': maxb, 'old_sort': bool(kw.pop('old_sort', False)), 'name': kw.pop('name', None) or rng.choice(names),
              'key': rng.randbytes(keylen).hex(), 'iv_mode': kw.pop('iv_mode', 'random'),
              'iv_seed': rng.randrange(1 << 30),
              'data': dict({'size': size, 'kind': kw.pop('kind', 'random'), 'seed': rng.randrange(1 << 30)}, **kw)}
@@ -465,6 +489,9 @@ def create_cases(rng, tier):
             sizes |= set(range(0, 4 * c + 3))
         for s in sorted(x for x in sizes if x >= 0):
             cases.append(mk(maxb, s))
+        # the legacy descriptor layout (create_stream(old_sort=True)) at the main boundaries
+        for s in (1, 16, c - 1, c, c + 1, 2 * c, 2 * c + 1):
+            cases.append(mk(maxb, s, old_sort=True))
     # key sizes, iv patterns, content patterns
     for keylen in (16, 24, 32):
         cases.append(mk(64, 200, keylen=keylen))
@@ -474,13 +501,15 @@ def create_cases(rng, tier):
     cases.append(mk(32, 31 * 2 + 5, kind='periodic', period=31, iv_mode='const'))
     cases.append(mk(32, 31 * 2, kind='periodic', period=31, iv_mode='random'))
     cases.append(mk(64, 63 * 2, kind='zeros', iv_mode='const'))
+    cases.append(mk(32, 31 * 3, kind='periodic', period=31, iv_mode='const', old_sort=True))
+    cases.append(mk(32, 0, old_sort=True))
     for nm in names:
         cases.append(mk(rng.choice([32, 64]), rng.randrange(1, 200), name=nm))
     # random
     for _ in range(vlib.scaled(tier, 200, 4000)):
         maxb = rng.choice([17, 32, 33, 48, 64, 80, 128, 255, 256, 512])
         size = rng.randrange(0, 6 * maxb)
-        cases.append(mk(maxb, size, keylen=rng.choice([16, 16, 16, 24, 32]),
+        cases.append(mk(maxb, size, keylen=rng.choice([16, 16, 16, 24, 32]), old_sort=rng.random() < 0.3,
                         iv_mode=rng.choice(['random', 'random', 'counter', 'const']),
                         kind=rng.choice(['random', 'random', 'zeros', 'pad'])))
     # true 2 MiB runs (monitor + model on lengths)
@@ -490,6 +519,8 @@ def create_cases(rng, tier):
         bigs += [M - 17, M - 16, M - 15, 2 * (M - 1), 2 * (M - 1) - 1, 3 * (M - 1), 3 * (M - 1) + 1, M + 15, M + 16]
     for s in bigs:
         cases.append(mk(M, s, name='big.bin'))
+    cases.append(mk(M, 70000, name='payload.bin', old_sort=True))
+    cases.append(mk(M, M, name='big.bin', old_sort=True))
     return cases
 
 
@@ -1012,7 +1043,7 @@ def main(run):
     run.rule = ('(a) create_stream on generated files with MAX_BLOB_SIZE configured to 16..4096 in every module that '
                 'imports it: sizes 0,1,2,15,16,17 and k*(maxb-1)+-2, multiples of 16 around them, 16/24/32-byte keys, '
                 'random/counter/constant IV sequences, random/zero/padding-like/periodic contents, odd file names, plus '
-                'true 2 MiB runs; each published stream is loaded back with from_stream_descriptor_blob and saved with '
+                'true 2 MiB runs, both descriptor layouts (old_sort false/true); each published stream is loaded back with from_stream_descriptor_blob and saved with '
                 'ManagedStream._save_file. (b) every tampering op x every field (flip/case/truncate/extend/empty/'
                 'non-hex/non-ascii/bad UTF-8/type change/missing, number and length arithmetic, drop/duplicate/swap '
                 'blobs with and without renumbering and re-hashing, terminator changes, boundary shifts, malformed '
